@@ -71,8 +71,9 @@ func genClause(r *core.Rng, needOrder, total, allowFrame bool) c17Clause {
 		parts = append(parts, o)
 		if allowFrame {
 			c.hasFrame = true
-			lows := []int{math.MinInt, -2, -1, 0, 1}
-			highs := []int{math.MaxInt, -1, 0, 1, 2}
+			// (offsets far beyond any partition — up to the largest integer — bound the frame like UNBOUNDED does)
+			lows := []int{math.MinInt, -2, -1, 0, 1, -(math.MaxInt - 1), -(1 << 40), math.MaxInt - 1}
+			highs := []int{math.MaxInt, -1, 0, 1, 2, math.MaxInt - 1, 1 << 40, -(math.MaxInt - 1)}
 			for {
 				c.lo, c.hi = lows[r.Intn(len(lows))], highs[r.Intn(len(highs))]
 				if c.lo <= c.hi {
@@ -491,6 +492,33 @@ func c17Case(w *core.Worker, i int) {
 	s.Exec("DECLARE pick AGGREGATE (c, @k) AS BEGIN VAR @n := 0; VAR @x; WHILE @x IN c DO @n := @n + 1; END WHILE; RETURN @k * 1000 + @n; END;")
 	judged := 0
 	var exprs []string
+	if n > 0 {
+		// analytic functions nested in analytic functions, two of them side by side (the inner ones are evaluated first,
+		// whatever order the select list is walked in): executed three times
+		nq := "SELECT id, SUM(ROW_NUMBER() OVER (ORDER BY id)) OVER () AS a, MAX(RANK() OVER (ORDER BY id DESC)) OVER () AS b, COUNT(*) OVER () + MIN(DENSE_RANK() OVER (ORDER BY id)) OVER () AS c FROM t"
+		for rep := 0; rep < 3; rep++ {
+			res := s.Exec(nq)
+			if res.Err != nil || len(res.Views) != 1 || len(res.Views[0].Rows) != n {
+				w.Violation("nested:query-error", fmt.Sprintf("%s [%d rows, run %d]: %v", nq, n, rep+1, res.Err), c17Replay{Table: t.CSV(), Query: nq, CPU: cpu})
+				break
+			}
+			for _, row := range res.Views[0].Rows {
+				if row[1].S != strconv.Itoa(n*(n+1)/2) || row[2].S != strconv.Itoa(n) || row[3].S != strconv.Itoa(n+1) {
+					w.Violation("nested:value", fmt.Sprintf("%s [%d rows]: row %v, expected a = %d, b = %d, c = %d", nq, n, valsToStrs(row), n*(n+1)/2, n, n+1), c17Replay{Table: t.CSV(), Query: nq, CPU: cpu})
+					break
+				}
+			}
+			w.Count("nested_analytic_queries_judged", 1)
+		}
+		// two functions that differ only in the letter case of a literal argument are two functions
+		lq := "SELECT id, LISTAGG(id, 'x') OVER () AS l1, LISTAGG(id, 'X') OVER () AS l2, LAG(v, 1, 'none') OVER (ORDER BY id) AS g1, LAG(v, 1, 'NONE') OVER (ORDER BY id) AS g2 FROM t ORDER BY id LIMIT 1"
+		if res := s.Exec(lq); res.Err == nil && len(res.Views) == 1 && len(res.Views[0].Rows) == 1 {
+			row := res.Views[0].Rows[0]
+			if (n > 1 && (strings.Contains(row[1].S, "X") || strings.Contains(row[2].S, "x"))) || row[3].S != "none" || row[4].S != "NONE" {
+				w.Violation("value:functions-differing-in-the-case-of-a-literal-share-one-result", fmt.Sprintf("%s [%d rows]: %v", lq, n, valsToStrs(row)), c17Replay{Table: t.CSV(), Query: lq, CPU: cpu})
+			}
+		}
+	}
 	for q := 0; q < 6; q++ {
 		e1, e2 := genC17Expr(r), genC17Expr(r)
 		sql := fmt.Sprintf("SELECT id, p, o, v, %s AS f1, %s AS f2 FROM t", e1.sql, e2.sql)
@@ -540,11 +568,21 @@ func c17Case(w *core.Worker, i int) {
 			for _, p := range parts {
 				for idx := range p {
 					lo, hi := 0, len(p)-1
+					// (the bounds are positions on the unbounded integer line: far offsets must not wrap around)
+					farAdd := func(i, off int) int {
+						switch {
+						case off > 1<<30:
+							return 1 << 30
+						case off < -(1 << 30):
+							return -(1 << 30)
+						}
+						return i + off
+					}
 					if e.clause.lo != math.MinInt {
-						lo = idx + e.clause.lo
+						lo = farAdd(idx, e.clause.lo)
 					}
 					if e.clause.hi != math.MaxInt {
-						hi = idx + e.clause.hi
+						hi = farAdd(idx, e.clause.hi)
 					}
 					if lo < 0 {
 						lo = 0
